@@ -114,7 +114,7 @@ func (m Common) AuthenticateGetOutbox(c context.Context, w http.ResponseWriter, 
 
 func (m Common) GetOutbox(c context.Context, r *http.Request) (vocab.ActivityStreamsOrderedCollectionPage, error) {
 	a := m.A
-	iri := "https://" + r.Host + r.URL.Path
+	iri := a.RewriteLocal("https://" + r.Host + r.URL.Path)
 	idx, err := a.point(c, "Common.GetOutbox", iri, true)
 	if err != nil {
 		return nil, err
@@ -336,7 +336,7 @@ func (f Fed) FilterForwarding(c context.Context, potentialRecipients []*url.URL,
 
 func (f Fed) GetInbox(c context.Context, r *http.Request) (vocab.ActivityStreamsOrderedCollectionPage, error) {
 	a := f.A
-	iri := "https://" + r.Host + r.URL.Path
+	iri := a.RewriteLocal("https://" + r.Host + r.URL.Path)
 	idx, err := a.point(c, "Fed.GetInbox", iri, true)
 	if err != nil {
 		return nil, err
